@@ -209,7 +209,7 @@ class EMG(Block):
         return (
             self.format == other.format
             and self.frequency == other.frequency
-            and self.startTime == other.startTime
+            and f32.btype.type(self.startTime) == f32.btype.type(other.startTime)
             and self.nSamples == other.nSamples
             and list(self._emgMap) == list(other._emgMap)
             and len(self._signals) == len(other._signals)
